@@ -326,7 +326,24 @@ def sb_isinf(ex, node, st):
     return ex.fm.isinf(ex.tofloat(ex.eval(node.args[0], st)))
 
 
+def sb_ORD(ex, node, st):
+    from . import pymodel
+    cal = pymodel.calendar(ex)
+    return cal["ORD"](zint(ex.eval(node.args[0], st)), zint(ex.eval(node.args[1], st)))
+
+
+def sb_abs_us(ex, node, st):
+    from . import pymodel
+    v = ex.eval(node.args[0], st)
+    if isinstance(v, pymodel.DateV):
+        return v.abs
+    if isinstance(v, pymodel.TimedeltaV):
+        return v.us
+    raise Unsupported("abs_us of a non-datetime value")
+
+
 SPEC_BUILTINS = {
+    "ORD": sb_ORD, "abs_us": sb_abs_us,
     "isnan": sb_isnan, "isinf": sb_isinf,
     "positions": sb_positions,
     "forall": sb_forall, "exists": lambda ex, n, st: sb_forall(ex, n, st, exists=True), "old": sb_old, "pre": sb_pre,
